@@ -156,6 +156,13 @@ func (env *specEnv) pkg() *types.Package {
 
 func (env *specEnv) lookupIdent(name string) (Value, bool) {
 	ex := env.ex
+	if !env.calleeCtx && !env.bound[name] {
+		if a, ok := ex.root().aliases[name]; ok {
+			if _, isParam := env.vars[name]; !isParam {
+				name = a
+			}
+		}
+	}
 	if env.bound[name] {
 		if v, ok := env.vars[name]; ok {
 			return v, true
